@@ -109,8 +109,18 @@ fn body(rounds: &[usize]) {
     outcome(&l);
 }
 
+fn probe() {
+    must_branch("Answers get_unique_token / notify / wait_for_answer", || {
+        let a = A::new();
+        let t = a.get_unique_token();
+        a.notify(t);
+        a.wait_for_answer(t);
+    });
+    outcome(&PROBE);
+}
+
 pub fn configs(thorough: bool) -> Vec<Config> {
-    let mut v = vec![];
+    let mut v = vec![Config::new(PROBE.into(), Bound::Unbounded, probe)];
     let mut add = |rounds: Vec<usize>, bound: Bound| {
         let name = format!("callers:{}", rounds.iter().map(|n| n.to_string()).collect::<Vec<_>>().join("+"));
         v.push(Config::new(name, bound, move || body(&rounds)));
@@ -134,3 +144,11 @@ pub fn configs(thorough: bool) -> Vec<Config> {
     }
     v
 }
+
+pub const SUB: crate::driver::Sub = crate::driver::Sub {
+    name: "c08_answers_loom",
+    property: "C08",
+    configs,
+    rule: "configs = rounds per caller for 1-3 caller threads (1, 2, 1+1, 1+2, 2+2, 1+1+1; thorough also 1+1+2) against one reloader thread that answers a harness FIFO in order; the code under test is the real `struct Answers`/`impl Answers` of hot_reloading/mod.rs over the real std-flavoured Mutex/Condvar wrappers of utils/private.rs (parking_lot OFF) over loom's Mutex/Condvar; for each config loom enumerates every interleaving of the lock / condvar / atomic operations within the preemption bound; deadlock = loom finds no runnable thread. distinct = distinct event logs (request / publish / return order)",
+    bound: "1 reloader + 1-3 caller threads, 1-2 rounds per caller; preemption bound chosen per config (one caller: none; quick: 1+1 -> 3, 1+2 -> 2, 2+2 -> 2, 1+1+1 -> 1; thorough: 1+1 -> 5, 1+2 -> 3, 2+2 -> 3, 1+1+1 -> 2, 1+1+2 -> 1)",
+};
